@@ -942,6 +942,37 @@ fn run_wrap(text: &str, allow: bool) -> Resp {
         Some(x) => x,
         None => return Resp::with(obs, Some("accessors panic on the input".into())),
     };
+    // the result is a function of the text: results handed out by earlier calls (relation, entry and
+    // field level) and edited in place since then must not show in a later normalisation of the same
+    // text (after seeded changes C13-r6m1 / C15-r6m1: a cache that hands out the same mutable tree)
+    let again = guard(|| {
+        let (root2, _) = Relations::parse_relaxed(text, allow);
+        for e in root2.entries() {
+            for r in e.relations() {
+                let mut w = r.wrap_and_sort();
+                w.set_archqual("zz");
+                w.set_version(Some((VersionConstraint::Equal, "9".parse().unwrap())));
+            }
+            let we = e.wrap_and_sort();
+            for mut r in we.relations() {
+                r.set_archqual("zy");
+            }
+        }
+        let wf = root2.wrap_and_sort();
+        for e in wf.entries() {
+            for mut r in e.relations() {
+                r.set_archqual("zx");
+            }
+        }
+        let (root3, _) = Relations::parse_relaxed(text, allow);
+        root3.wrap_and_sort().to_string()
+    });
+    if again.as_deref() != Some(t1.as_str()) {
+        why.push(format!(
+            "normalising the same text again, after results of earlier calls were edited in place, gives {:?} instead of {:?}",
+            again, t1
+        ));
+    }
     match strict_parse(&t1, allow) {
         None => why.push(format!("result {:?} does not parse strictly", t1)),
         Some(r) => match read_field(&r) {
